@@ -11,6 +11,12 @@ func (payload *SubAccWagerTicketPayload) Validate(betAmount sdkmath.Int) error {
 		return sdkerrtypes.ErrInvalidRequest.Wrap("main account and subaccount deduction should be set")
 	}
 
+	// a negative part would let the other part exceed the bet amount: the surplus of the subaccount deduction
+	// is transferred to the main account and never staked, which releases locked tokens.
+	if payload.MainaccDeductAmount.IsNegative() || payload.SubaccDeductAmount.IsNegative() {
+		return sdkerrtypes.ErrInvalidRequest.Wrap("main account and subaccount deduction should not be negative")
+	}
+
 	if !payload.MainaccDeductAmount.Add(payload.SubaccDeductAmount).Equal(betAmount) {
 		return sdkerrtypes.ErrInvalidRequest.Wrap("sum of main and sub account deduction should be equal to bet amount")
 	}
